@@ -28,7 +28,7 @@ def jobs(tier):
 
 
 SAMPLES = [
-    {"module": "harness.persist", "fn": "crash_step", "params": {"op": "append", "prop": "C11", "cmax": 30}, "args": {"c": 4, "d1": False, "d2": False, "d3": False, "s": 2}},
-    {"module": "harness.persist", "fn": "crash_step", "params": {"op": "expunge", "prop": "C11", "cmax": 30}, "args": {"c": 3, "d1": True, "d2": False, "d3": True, "s": 2}},
+    {"module": "harness.persist", "fn": "crash_step", "params": {"op": "append", "prop": "C11", "cmax": 30}, "args": {"c": 4, "d1": False, "d2": False, "d3": False, "s": 2, "follow": True, "marked": False}},
+    {"module": "harness.persist", "fn": "crash_step", "params": {"op": "expunge", "prop": "C11", "cmax": 30}, "args": {"c": 3, "d1": True, "d2": False, "d3": True, "s": 2, "follow": False, "marked": False}},
     {"module": "harness.persist", "fn": "first_start", "params": {"prop": "C11"}, "args": {"c": 7}},
 ]
